@@ -190,6 +190,10 @@ type replayRun struct {
 
 // runOverlayTest runs an in-package test file against the real repository.
 func runOverlayTest(repo, pkgDir, src, scratch string, timeout time.Duration) replayRun {
+	return runOverlayTestFlags(repo, pkgDir, src, scratch, timeout, "")
+}
+
+func runOverlayTestFlags(repo, pkgDir, src, scratch string, timeout time.Duration, flags string) replayRun {
 	tf := filepath.Join(scratch, "zz_verif_replay_test.go")
 	os.WriteFile(tf, []byte(src), 0644)
 	ov := map[string]map[string]string{"Replace": {filepath.Join(repo, pkgDir, "zz_verif_replay_test.go"): tf}}
@@ -198,7 +202,7 @@ func runOverlayTest(repo, pkgDir, src, scratch string, timeout time.Duration) re
 	os.WriteFile(ovf, ob, 0644)
 	ctx, cancel := context.WithTimeout(context.Background(), timeout+30*time.Second)
 	defer cancel()
-	cmd := exec.CommandContext(ctx, "bash", "-c", fmt.Sprintf("ulimit -v 8000000; cd %s && go test -overlay %s -vet=off -timeout %ds -count=1 -v -run '^TestVerifReplay$' ./%s", repo, ovf, int(timeout.Seconds()), pkgDir))
+	cmd := exec.CommandContext(ctx, "bash", "-c", fmt.Sprintf("%s cd %s && go test %s -overlay %s -vet=off -timeout %ds -count=1 -v -run '^TestVerifReplay$' ./%s", ulimitFor(flags), repo, flags, ovf, int(timeout.Seconds()), pkgDir))
 	cmd.Env = append(os.Environ(), "GOFLAGS=-mod=mod", "GOPROXY=off", "GOSUMDB=off", "GOTOOLCHAIN=local")
 	var out bytes.Buffer
 	cmd.Stdout = &out
@@ -211,6 +215,63 @@ func runOverlayTest(repo, pkgDir, src, scratch string, timeout time.Duration) re
 	return r
 }
 
+func ulimitFor(flags string) string {
+	if strings.Contains(flags, "-race") {
+		return "" // the race runtime reserves a large virtual address range
+	}
+	return "ulimit -v 8000000;"
+}
+
+// replayRace: a Go snippet from the contract is run in-package under the race detector. par(fs...)
+// runs every function 20000 times, all concurrently.
+func (c *Checker) replayRace(o *Obl, e *enc, body string, rp map[string]interface{}) map[string]interface{} {
+	src := fmt.Sprintf(`package %s
+
+import (
+	"sync"
+	"testing"
+)
+
+func par(fs ...func()) {
+	var wg sync.WaitGroup
+	for _, f := range fs {
+		wg.Add(1)
+		go func(f func()) {
+			defer wg.Done()
+			for i := 0; i < 20000; i++ {
+				f()
+			}
+		}(f)
+	}
+	wg.Wait()
+}
+
+func TestVerifReplay(t *testing.T) {
+	%s
+}
+`, e.f.Pkg.Pkg.Name(), body)
+	rp["replay"] = "sched: overlapping calls under the Go race detector"
+	rp["test_source"] = src
+	run := runOverlayTestFlags(c.W.Repo, pkgDirOf(e.f), src, c.Dir, 120*time.Second, "-race")
+	rp["replay_output"] = truncate(run.Out, 3000)
+	switch {
+	case strings.Contains(run.Out, "fatal error: concurrent map"):
+		rp["outcome"] = "fatal error: concurrent map access (process aborted)"
+		rp["confirmed"] = true
+	case strings.Contains(run.Out, "WARNING: DATA RACE"):
+		rp["outcome"] = "race detector: DATA RACE"
+		rp["confirmed"] = true
+	case run.TimedOut:
+		rp["outcome"] = "hang"
+		rp["confirmed"] = true
+	case strings.Contains(run.Out, "PASS"):
+		rp["outcome"] = "no race observed"
+	default:
+		rp["outcome"] = "replay did not run to completion"
+	}
+	return rp
+}
+
 func pkgDirOf(f *ssa.Function) string {
 	return strings.TrimPrefix(strings.TrimPrefix(f.Pkg.Pkg.Path(), repoModule), "/")
 }
@@ -218,6 +279,9 @@ func pkgDirOf(f *ssa.Function) string {
 // replay tries to turn the model of a failed obligation into a run of the real code.
 func (c *Checker) replay(o *Obl, e *enc, model string) map[string]interface{} {
 	rp := map[string]interface{}{"confirmed": false}
+	if e != nil && e.fc != nil && strings.HasPrefix(e.fc.Replay, "race:") {
+		return c.replayRace(o, e, strings.TrimSpace(strings.TrimPrefix(e.fc.Replay, "race:")), rp)
+	}
 	if e == nil || e.fc == nil || model == "" {
 		rp["replay"] = "no replay recipe for this obligation"
 		return rp
